@@ -128,34 +128,56 @@ Proof. exact MonitorProofs.origin_untouched_no_echo. Qed.
 Print Assumptions C07_origin_untouched_no_retransfer.
 
 (* ---------------------------------------------------------------- non-vacuity *)
+(* every Example is one closed boolean computation, checked by the VM *)
+Definition on_run (g : bool) (ls : list elabel) (f : cfg -> bool) : bool :=
+  match erun g cfg0 ls with Some c => f c | None => false end.
+Definition view_eqb (a b : list (pth * kind * bool)) : bool :=
+  Nat.eqb (length a) (length b) &&
+  forallb (fun ab => N.eqb (fst (fst (fst ab))) (fst (fst (snd ab))) && kind_eqb (snd (fst (fst ab))) (snd (fst (snd ab))) &&
+                     Bool.eqb (snd (fst ab)) (snd (snd ab))) (combine a b).
+Fixpoint sx_eqb (a b : sx) : bool :=
+  match a, b with
+  | A x, A y => N.eqb x y
+  | L l, L m => (fix go (l m : list sx) : bool :=
+                   match l, m with [] , [] => true | x :: r, y :: q => sx_eqb x y && go r q | _, _ => false end) l m
+  | _, _ => false
+  end.
+
 (* a run: create, intake, the sync dies right after the provider create (peer exists, row does not know it) *)
 Definition ex_half_recorded : list elabel :=
   [EUser (UNew false 1%N (KFile 7%N)); EStep (KMark 0); EStep (KEnd false); ECrash (KSync 0) 2].
 
 Example C07_ex_crash_state_has_unrecorded_peer :
-  exists c, erun true cfg0 ex_half_recorded = Some c /\ c_rec c = true /\
-            view false (c_st c) = [(1%N, KFile 7%N, false)] /\ view true (c_st c) = [(1%N, KFile 7%N, false)] /\
-            settled (c_st c) = false /\
-            match slots (c_st c) with [sl] => match sl_row sl with Some r => s_has (e_peer r) | None => true end | _ => true end = false.
-Proof. eexists. repeat split; vm_compute; reflexivity. Qed.
+  on_run true ex_half_recorded (fun c =>
+    c_rec c && view_eqb (view false (c_st c)) [(1%N, KFile 7%N, false)] && view_eqb (view true (c_st c)) [(1%N, KFile 7%N, false)] &&
+    negb (settled (c_st c)) &&
+    match slots (c_st c) with [sl] => match sl_row sl with Some r => negb (s_has (e_peer r)) | None => false end | _ => false end) = true.
+Proof. vm_compute. reflexivity. Qed.
 
-(* its recovery writes nothing to a provider (the peer is adopted), and without the adoption rule it would *)
+(* its recovery writes nothing to a provider (the peer is adopted), and without the adoption rule it would
+   (6 = rename to ".conflicted", 2 = create) *)
 Example C07_ex_recovery_adopts :
-  exists c, erun true cfg0 ex_half_recorded = Some c /\
-            recovery_writes true (c_st c) = [L []] /\
-            recovery_writes false (c_st c) = [L [L [A 6%N; A 0%N]; L [A 2%N]]] /\
-            view true (recover (c_st c)) = [(1%N, KFile 7%N, false)].
-Proof. eexists. repeat split; vm_compute; reflexivity. Qed.
+  on_run true ex_half_recorded (fun c =>
+    sx_eqb (L (recovery_writes true (c_st c))) (L [L []]) &&
+    sx_eqb (L (recovery_writes false (c_st c))) (L [L [L [A 6%N; A 0%N]; L [A 2%N]]]) &&
+    view_eqb (view true (recover (c_st c))) [(1%N, KFile 7%N, false)] && settled (recover (c_st c))) = true.
+Proof. vm_compute. reflexivity. Qed.
 
-(* a longer run: rename + write, the sync dies between the rename and the upload; recovery finishes both *)
+(* a longer run: rename + write, the sync dies between the rename and the upload; the recovery plan renames again
+   (to the path the peer already has: no effect at the provider) and uploads (4 = rename, 3 = upload) *)
 Example C07_ex_half_rename_upload :
-  exists c, erun true cfg0 [EUser (UNew false 1%N (KFile 7%N)); EStep (KMark 0); EStep (KEnd false); EStep (KSync 0);
-                            EStep (KEnd true); EUser (URename 0 2%N); EUser (UWrite 0 8%N); EStep (KMark 0); EStep (KEnd false);
-                            ECrash (KSync 0) 2] = Some c /\
-            view true (c_st c) = [(2%N, KFile 7%N, false)] /\
-            recovery_writes true (c_st c) = [L [L [A 4%N; A 0%N]; L [A 3%N; A 0%N]]] /\
-            view true (recover (c_st c)) = [(2%N, KFile 8%N, false)] /\ settled (recover (c_st c)) = true.
-Proof. eexists. repeat split; vm_compute; reflexivity. Qed.
+  on_run true [EUser (UNew false 1%N (KFile 7%N)); EStep (KMark 0); EStep (KEnd false); EStep (KSync 0);
+               EStep (KEnd true); EUser (URename 0 2%N); EUser (UWrite 0 8%N); EStep (KMark 0); EStep (KEnd false);
+               ECrash (KSync 0) 2]
+    (fun c =>
+       view_eqb (view true (c_st c)) [(2%N, KFile 7%N, false)] &&
+       match slots (c_st c) with
+       | [sl] => sx_eqb (L (map sx_sop (plan_sync_slot true true sl))) (L [L [A 1%N]; L [A 4%N; A 0%N]; L [A 3%N; A 0%N]; L [A 7%N; A 0%N]; L [A 9%N]])
+       | _ => false
+       end &&
+       sx_eqb (L (recovery_writes true (c_st c))) (L [L [L [A 3%N; A 0%N]]]) &&
+       view_eqb (view true (recover (c_st c))) [(2%N, KFile 8%N, false)] && settled (recover (c_st c))) = true.
+Proof. vm_compute. reflexivity. Qed.
 
 (* the guards reject the reordered writes: recording the link before the provider write, moving the cursor before the
    event is committed *)
